@@ -4,7 +4,11 @@
 
 use base64::Engine;
 use base64::engine::general_purpose::STANDARD as B64;
-use rpki::ca::publication;
+use std::str::FromStr;
+use rpki::ca::publication::{
+    self, Base64, Publish, PublishDelta, Update, Withdraw,
+};
+use rpki::uri;
 use serde::{Deserialize, Serialize};
 use serde_json::{json, Value};
 use crate::fworld::{self, Client, Ctx};
@@ -61,6 +65,28 @@ pub struct Input {
     /// What was done to the valid message (for people).
     #[serde(default)]
     pub note: String,
+    /// Requests to the same endpoint that set the scene and are executed
+    /// first (kind "msg"), and "flush": let the publication server turn
+    /// what is staged into an RRDP delta.
+    #[serde(default)]
+    pub prelude: Vec<Step>,
+}
+
+#[derive(Clone, Debug, Deserialize, Serialize)]
+pub struct Step {
+    pub kind: String,
+    #[serde(with = "b64", default)]
+    pub body: Vec<u8>,
+}
+
+impl Step {
+    fn msg(body: Vec<u8>) -> Self {
+        Step { kind: "msg".into(), body }
+    }
+
+    fn flush() -> Self {
+        Step { kind: "flush".into(), body: Vec::new() }
+    }
 }
 
 /// What the generator needs to know of the server under test.
@@ -90,7 +116,7 @@ impl Gen<'_> {
         let (method, path) = seeds::route(&v.e, &ca, &sub);
         let mut input = Input {
             ca, sub, method, path, body: Vec::new(), ctype: String::new(),
-            note: String::new(),
+            note: String::new(), prelude: Vec::new(),
         };
         match v.kind.as_str() {
             "cms" => self.cms(v, &mut rng, &mut input)?,
@@ -384,10 +410,210 @@ impl Gen<'_> {
                 ]).to_string();
                 self.valid_cms(e, rng, input)?
             }
+            c if c.starts_with("delta_") => self.delta(c, rng, input)?,
+            c if c.starts_with("updown_") => self.updown(c, rng, input)?,
             other => return Err(format!("unknown cms class {other}")),
         };
         input.body = body;
         Ok(())
+    }
+
+    fn sign_8181(&self, rng: &mut Rng, delta: PublishDelta)
+        -> Result<Vec<u8>, String>
+    {
+        self.client.ensure_keys(rng.below(1400));
+        Ok(self.client.cms_8181(
+            publication::Message::delta(delta), &self.client.pub_ki
+        )?.to_vec())
+    }
+
+    /// Valid, correctly signed deltas of the publisher whose elements
+    /// collide with each other, with an object published before (prelude,
+    /// flushed into the snapshot or still staged) or with what the
+    /// preceding delta left staged.
+    fn delta(&self, c: &str, rng: &mut Rng, input: &mut Input)
+        -> Result<Vec<u8>, String>
+    {
+        let base = format!("{}{}/", crate::aworld::RSYNC_BASE, input.sub);
+        let uri = uri::Rsync::from_str(&format!(
+            "{base}c/o{:08x}.cer", rng.next() as u32
+        )).map_err(|e| e.to_string())?;
+        let c1 = Base64::from_content(&rng.some_bytes(48));
+        let c2 = Base64::from_content(&rng.some_bytes(48));
+        let c3 = if rng.coin() { c2.clone() } else {
+            Base64::from_content(&rng.some_bytes(48))
+        };
+        let h1 = c1.to_hash();
+        let h2 = c2.to_hash();
+        let publish = |c: &Base64| Publish::new(None, uri.clone(), c.clone());
+        let update = |c: &Base64, h: rpki::rrdp::Hash| {
+            Update::new(None, uri.clone(), c.clone(), h)
+        };
+        let withdraw = |h: rpki::rrdp::Hash| {
+            Withdraw::new(None, uri.clone(), h)
+        };
+        // the object exists before the judged delta (with content c1),
+        // in the snapshot or only staged
+        let existing = |this: &Self, rng: &mut Rng, input: &mut Input|
+            -> Result<bool, String>
+        {
+            let mut d = PublishDelta::empty();
+            d.add_publish(publish(&c1));
+            input.prelude.push(Step::msg(this.sign_8181(rng, d)?));
+            let flushed = rng.below(4) != 0;
+            if flushed {
+                input.prelude.push(Step::flush());
+            }
+            Ok(flushed)
+        };
+        let mut d = PublishDelta::empty();
+        match c {
+            "delta_dup_publish" => {
+                d.add_publish(publish(&c1));
+                d.add_publish(publish(&c3));
+                if rng.below(4) == 0 {
+                    d.add_publish(publish(&c2));
+                }
+                input.note = "publish x2 of a new URI".into();
+            }
+            "delta_dup_withdraw" => {
+                let fl = existing(self, rng, input)?;
+                d.add_withdraw(withdraw(h1));
+                d.add_withdraw(withdraw(h1));
+                input.note = format!("withdraw x2 of an object (flushed {fl})");
+            }
+            "delta_publish_withdraw" => {
+                if rng.coin() {
+                    d.add_publish(publish(&c1));
+                    d.add_withdraw(withdraw(h1));
+                    input.note = "publish + withdraw of a new URI".into();
+                }
+                else {
+                    let fl = existing(self, rng, input)?;
+                    d.add_publish(publish(&c2));
+                    d.add_withdraw(withdraw(h1));
+                    input.note = format!(
+                        "publish + withdraw of an object (flushed {fl})"
+                    );
+                }
+            }
+            "delta_update_withdraw" => {
+                let fl = existing(self, rng, input)?;
+                d.add_update(update(&c2, h1));
+                d.add_withdraw(withdraw(if rng.coin() { h1 } else { h2 }));
+                input.note = format!(
+                    "update + withdraw of an object (flushed {fl})"
+                );
+            }
+            "delta_dup_update" => {
+                let fl = existing(self, rng, input)?;
+                d.add_update(update(&c2, h1));
+                d.add_update(update(&c3, if rng.coin() { h1 } else { h2 }));
+                input.note = format!("update x2 of an object (flushed {fl})");
+            }
+            "delta_publish_existing_twice" => {
+                let fl = existing(self, rng, input)?;
+                d.add_publish(publish(&c2));
+                d.add_publish(publish(&c3));
+                input.note = format!(
+                    "publish x2 of an existing object (flushed {fl})"
+                );
+            }
+            "delta_staged_collision" => {
+                // first delta (staged, no RRDP update), then the judged one
+                let mut first = PublishDelta::empty();
+                let kind = rng.below(8);
+                let note = match kind {
+                    0 => {
+                        first.add_publish(publish(&c1));
+                        d.add_publish(publish(&c2));
+                        "publish, then publish again"
+                    }
+                    1 => {
+                        first.add_publish(publish(&c1));
+                        d.add_withdraw(withdraw(h1));
+                        "publish, then withdraw"
+                    }
+                    2 => {
+                        first.add_publish(publish(&c1));
+                        d.add_update(update(&c2, h1));
+                        "publish, then update"
+                    }
+                    3 => {
+                        existing(self, rng, input)?;
+                        first.add_withdraw(withdraw(h1));
+                        d.add_withdraw(withdraw(h1));
+                        "object, withdraw, then withdraw again"
+                    }
+                    4 => {
+                        existing(self, rng, input)?;
+                        first.add_withdraw(withdraw(h1));
+                        d.add_publish(publish(&c2));
+                        "object, withdraw, then publish"
+                    }
+                    5 => {
+                        existing(self, rng, input)?;
+                        first.add_withdraw(withdraw(h1));
+                        d.add_update(update(&c2, h1));
+                        "object, withdraw, then update"
+                    }
+                    6 => {
+                        existing(self, rng, input)?;
+                        first.add_update(update(&c2, h1));
+                        d.add_withdraw(withdraw(
+                            if rng.coin() { h1 } else { h2 }
+                        ));
+                        "object, update, then withdraw"
+                    }
+                    _ => {
+                        existing(self, rng, input)?;
+                        first.add_update(update(&c2, h1));
+                        d.add_update(update(
+                            &c3, if rng.coin() { h1 } else { h2 }
+                        ));
+                        "object, update, then update"
+                    }
+                };
+                input.prelude.push(Step::msg(self.sign_8181(rng, first)?));
+                input.note = note.into();
+            }
+            other => return Err(format!("unknown delta class {other}")),
+        }
+        self.sign_8181(rng, d)
+    }
+
+    /// Valid, correctly signed requests of the child about one key, in
+    /// quick succession.
+    fn updown(&self, c: &str, rng: &mut Rng, input: &mut Input)
+        -> Result<Vec<u8>, String>
+    {
+        let class = self.harvest_class();
+        let key = if rng.coin() {
+            self.client.child_ca_key
+        } else { self.client.spare_ca_key };
+        let sender = input.sub.clone();
+        let sign = |this: &Self, rng: &mut Rng, kind: &str|
+            -> Result<Vec<u8>, String>
+        {
+            this.client.ensure_keys(rng.below(1400));
+            let msg = seeds::msg_6492_for_key(
+                kind, this.client, &sender, &class, &key
+            )?;
+            Ok(this.client.cms_6492(msg, &this.client.child_ki)?.to_vec())
+        };
+        let (pre, last): (&[&str], &str) = match c {
+            "updown_issue_twice" => (&["issue"], "issue"),
+            "updown_revoke_issue" => (&["issue", "revoke"], "issue"),
+            "updown_issue_revoke" => (&["issue"], "revoke"),
+            "updown_revoke_twice" => (&["issue", "revoke"], "revoke"),
+            other => return Err(format!("unknown updown class {other}")),
+        };
+        for kind in pre {
+            let bytes = sign(self, rng, kind)?;
+            input.prelude.push(Step::msg(bytes));
+        }
+        input.note = format!("{} then {last}", pre.join(", "));
+        sign(self, rng, last)
     }
 }
 
